@@ -640,6 +640,10 @@ func main() {
 		workerMain()
 		return
 	}
+	if len(os.Args) > 1 && os.Args[1] == "-racepair" {
+		raceDriverMain(os.Args[2:]) // only in the -race build of this check (race.go)
+		return
+	}
 	if len(os.Args) > 1 && os.Args[1] == "-list" {
 		// development aid: print the case table
 		gs := buildGroups(buildTargets(), report.Tier())
@@ -660,10 +664,16 @@ func main() {
 		chk.EngineError("os.Executable: %v", err)
 		os.Exit(chk.Finish(map[string]interface{}{"evaluations": 0}, nil))
 	}
-	// clean scratch (keep only the check binary built by vcheck)
+	// clean scratch (keep only the check binary built by vcheck and the race
+	// driver of a run that may still be going on)
 	work := filepath.Join(report.Root(), ".work", "c07")
 	if ents, err := os.ReadDir(work); err == nil {
 		for _, e := range ents {
+			if strings.HasPrefix(e.Name(), "check.race.") {
+				if fi, err := e.Info(); err == nil && time.Since(fi.ModTime()) < 2*time.Hour {
+					continue
+				}
+			}
 			if filepath.Join(work, e.Name()) != self && e.Name() != "check" {
 				os.RemoveAll(filepath.Join(work, e.Name()))
 			}
@@ -673,6 +683,22 @@ func main() {
 	ts := buildTargets()
 	groups := buildGroups(ts, tier)
 	wantHash = tableHash(groups)
+	streams := buildStreams()
+	if err := streamsCoverTargets(ts, streams); err != nil {
+		chk.EngineError("%v", err)
+	}
+	// the race driver is (re)built from the current tree while the
+	// enumeration runs
+	type raceBuild struct {
+		bin string
+		s   float64
+		err error
+	}
+	raceCh := make(chan raceBuild, 1)
+	go func() {
+		bin, s, err := buildRaceDriver()
+		raceCh <- raceBuild{bin, s, err}
+	}()
 
 	// job order: by priority class, then chunk number, then group: the first
 	// chunk of every group runs before any second chunk, so a group that
@@ -842,6 +868,38 @@ func main() {
 		})
 	}
 
+	// ------------------------------------------- retention family, race side-pass
+	sideStart := time.Now()
+	var retainCov, raceCov map[string]interface{}
+	var swg sync.WaitGroup
+	swg.Add(2)
+	go func() {
+		defer swg.Done()
+		retainCov = retentionPass(lockedChk{chk, &st.mu}, streams, budget, nw)
+	}()
+	go func() {
+		defer swg.Done()
+		rb := <-raceCh
+		if rb.err != nil {
+			st.mu.Lock()
+			chk.EngineError("race side-pass not run: %v", rb.err)
+			st.mu.Unlock()
+			raceCov = map[string]interface{}{"pairs_run": 0, "not_run": rb.err.Error()}
+			return
+		}
+		defer os.Remove(rb.bin)
+		par := nw / 2
+		if par < 2 {
+			par = 2
+		}
+		raceCov = racePass(lockedChk{chk, &st.mu}, streams, rb.bin, rb.s, par)
+	}()
+	swg.Wait()
+	sideS := time.Since(sideStart).Seconds()
+	asInt := func(m map[string]interface{}, k string) int { n, _ := m[k].(int); return n }
+	st.perKind["retention-stream-input"] = asInt(retainCov, "inputs_fed")
+	st.perKind["race-pair-call"] = asInt(raceCov, "calls_run")
+
 	// ---------------------------------------------------------------- evidence
 	exhaustive := !sched.timedOut && only == nil
 	var unfinished, abandoned []string
@@ -880,7 +938,7 @@ func main() {
 		}
 	}
 	cov := map[string]interface{}{
-		"evaluations":         st.evals,
+		"evaluations":         st.evals + asInt(retainCov, "inputs_fed") + asInt(raceCov, "calls_run"),
 		"distinct_nontrivial": len(st.classes),
 		"rule": "universes (DESIGN.md 1.1, C07): for every binary entry point Bytes(L, {00,01,02,04,7f,80,ff}) with L=5 quick / 6 thorough " +
 			"(except the signature readers over zero-width elements [v] {vv} [()], whose only input-dependent field is the count, enumerated by Mut); " +
@@ -911,6 +969,10 @@ func main() {
 		"confirmation_s":                     time.Since(start).Seconds() - enumS,
 		"deadline_hit":                       sched.timedOut,
 		"reattributed_observations":          reattributed,
+		"enumeration_evaluations":            st.evals,
+		"retention":                          retainCov,
+		"race_side_pass":                     raceCov,
+		"retention_and_race_s":               sideS,
 	}
 	assumptions := []string{
 		"small-scope hypothesis: hostile inputs are the stated byte strings of length <= L, single (thorough: double) 4-byte field mutations and prefixes of valid encodings, and short token sequences; longer random inputs are not explored",
